@@ -350,12 +350,13 @@ MC_C09 = {"quick": _mc(["MC_storage_snap.cfg", "MC_storage_snap_mem.cfg", "MC_st
                            "MC_storage_mls.cfg", "MC_storage_mls_mem.cfg", "MC_storage_mls_sql.cfg",
                            "MC_storage_misc.cfg", "MC_storage_misc_mem.cfg", "MC_storage_misc_sql.cfg"], 900)}
 MC_C10 = {"quick": _mc(["MC_storage_snap.cfg", "MC_storage_reads.cfg", "MC_storage_reads_mem.cfg", "MC_storage_reads_sql.cfg",
-                        "MC_storage_misc.cfg", "MC_storage_cap.cfg", "MC_storage_mls_sql.cfg"]),
+                        "MC_storage_misc.cfg", "MC_storage_aux.cfg", "MC_storage_cap.cfg", "MC_storage_mls_sql.cfg"]),
           "thorough": _mc(["MC_storage_snap.cfg", "MC_storage_snap_mem.cfg", "MC_storage_snap_sql.cfg",
                            "MC_storage_reads.cfg", "MC_storage_reads_mem.cfg", "MC_storage_reads_sql.cfg",
                            "MC_storage_msgs.cfg", "MC_storage_msgs_mem.cfg", "MC_storage_msgs_sql.cfg",
                            "MC_storage_misc.cfg", "MC_storage_misc_mem.cfg", "MC_storage_misc_sql.cfg",
-                           "MC_storage_mls.cfg", "MC_storage_mls_mem.cfg", "MC_storage_mls_sql.cfg", "MC_storage_cap.cfg"], 900)}
+                           "MC_storage_mls.cfg", "MC_storage_mls_mem.cfg", "MC_storage_mls_sql.cfg", "MC_storage_cap.cfg",
+                           "MC_storage_aux.cfg", "MC_storage_aux_mem.cfg", "MC_storage_aux_sql.cfg"], 900)}
 MC_C18 = {"quick": _mc(["MC_storage_msgs.cfg", "MC_storage_reads.cfg", "MC_storage_reads_mem.cfg", "MC_storage_reads_sql.cfg"]),
           "thorough": _mc(["MC_storage_msgs.cfg", "MC_storage_msgs_mem.cfg", "MC_storage_msgs_sql.cfg",
                            "MC_storage_reads.cfg", "MC_storage_reads_mem.cfg", "MC_storage_reads_sql.cfg", "MC_storage_cap.cfg"], 900)}
